@@ -77,6 +77,9 @@ class ResWorld(World):
                 "p2": {"station_id": "bs", "charger_id": "LEVEL_2", "price_kwh": "0.137"},
                 "p3": {"station_id": "s0", "charger_id": "LEVEL_2", "price_kwh": "0.173"},  # same station as p1, other plug
             }
+        if prices:
+            # the grid side halves a plug's power at run time, at most once each
+            self.throttle_rows = {"t1": ("s0", "DCFC", 0.5), "t2": ("bs", "LEVEL_2", 0.5)}
         link_m = rn.position_from_geoid(S["M2"]).link_id
         per_vehicle = [
             ("Idle",),
